@@ -287,9 +287,38 @@ func isNetRead(name string) bool {
 	return strings.HasPrefix(name, "(*net.") && strings.Contains(name, ").Read")
 }
 
-// readsSocket: fn (or an in-module callee) reads from a net connection.
+// readsSocket: fn (or an in-module callee, closure or goroutine it starts) reads from a net connection,
+// through a concrete connection type or through the net.Conn / io.Reader interface.
 func readsSocket(fn *ssa.Function) bool {
-	return reachesCall(fn, isNetRead, map[*ssa.Function]bool{})
+	return readsSocketIn(fn, map[*ssa.Function]bool{})
+}
+
+func readsSocketIn(fn *ssa.Function, seen map[*ssa.Function]bool) bool {
+	if fn == nil || fn.Blocks == nil || seen[fn] {
+		return false
+	}
+	seen[fn] = true
+	for _, b := range fn.Blocks {
+		for _, in := range b.Instrs {
+			if ci, ok := in.(ssa.CallInstruction); ok {
+				cc := ci.Common()
+				if cc.IsInvoke() && strings.HasPrefix(cc.Method.Name(), "Read") {
+					if n, ok := types.Unalias(cc.Value.Type()).(*types.Named); ok && n.Obj().Pkg() != nil && (n.Obj().Pkg().Path() == "net" || n.Obj().Pkg().Path() == "io") {
+						return true
+					}
+				}
+			}
+		}
+	}
+	for _, f := range staticCallees(fn) {
+		if isNetRead(calleeName(f)) {
+			return true
+		}
+		if inModule(f) && readsSocketIn(f, seen) {
+			return true
+		}
+	}
+	return false
 }
 
 // typesHelpers: unexported plain functions of package types are helpers of the exported functions and
